@@ -318,7 +318,7 @@ def main(tier, only=None):
             cls = None
             m = re.search(r'/e(\d+)_(\w+)', b)
             if j[2] == 'inline' and m and (m.group(2) in sparse_kinds or (m.group(2) == 'hard' and any(k in sparse_kinds for k, v in j[1]))) and re.search(r' size is | hole at block| content differs', b):
-                cls = None         # repaired (fix: commits 3aa0bb30, 35d1b87b)
+                cls = None         # repaired (fix: commits 3aa0bb30, 622d113d)
             ck.violation('%s :: %s' % (cid, b[:60]), {'tree': j[1], 'feat': j[2], 'what': b, 'all': bad[:8], 'root_cause_class': cls})
     ck.add(evaluations=runs, distinct_nontrivial=ok, states=len(jobs), transitions=runs, traces_validated_against_impl=len(jobs),
            rule='source trees: every tree with <= 2 entries (thorough: + all 3-entry trees over 8 kinds) drawn from %d entry kinds (empty, 1 byte, bs-1, bs, 12*bs+1, 3 pages+5, hole at start/middle/end, allocated zero blocks, data beyond 4 GiB, '
